@@ -444,7 +444,7 @@ def explore(engine, harness, params, workers=None, max_paths=None, wall_budget=N
         # every exploration is capped: a truncated exploration is reported as such (INCONCLUSIVE unless a
         # confirmed violation was already found), never as success
         tier = os.environ.get('VERIF_TIER_EFFECTIVE', 'quick')
-        wall_budget = float(os.environ.get('VERIF_WALL_BUDGET', '0') or 0) or (420.0 if tier == 'quick' else 3000.0)
+        wall_budget = float(os.environ.get('VERIF_WALL_BUDGET', '0') or 0) or (900.0 if tier == 'quick' else 1500.0)
     cap = float(os.environ.get('VERIF_WALL_BUDGET', '0') or 0)
     if cap:
         wall_budget = min(wall_budget, cap)      # an explicit cap from the environment always wins
